@@ -176,6 +176,10 @@ func (w *rnsWorld) drawCanon(rt *rapid.T) string {
 }
 
 func drawCoin(rt *rapid.T, label string) sdk.Coin {
+	if rapid.IntRange(0, 14).Draw(rt, label+"-oddDenom") == 0 {
+		// nothing validates the coin of a bid message: a denomination string that reads like a list makes the price two coins
+		return sdk.Coin{Denom: rapid.SampledFrom([]string{"uatom,7ujkl", "ujkl,3uatom", "ujkl,0uatom"}).Draw(rt, label+"-listDenom"), Amount: sdk.NewInt(rapid.Int64Range(1, 9).Draw(rt, label+"-listAmt"))}
+	}
 	denom := rapid.SampledFrom([]string{"ujkl", "ujkl", "uatom", "aeth"}).Draw(rt, label+"-denom")
 	if denom == "aeth" {
 		// an 18-decimal denomination (bridged vouchers): a handful of tokens is more base units than an int64 holds
